@@ -145,6 +145,18 @@ func (r *udpResponseWriter) RemoteAddr() (addr net.Addr) {
 
 // WriteMsg implements the ResponseWriter interface for *udpResponseWriter.
 func (r *udpResponseWriter) WriteMsg(ctx context.Context, req, resp *dns.Msg) (err error) {
+	// The connection is shared by all UDP requests of the server, and so is its
+	// write deadline.  Do not let an already expired context put a deadline in
+	// the past onto it, since that fails the concurrent writes of the responses
+	// to other requests.
+	err = ctx.Err()
+	if err != nil {
+		return &WriteError{
+			Err:      err,
+			Protocol: "udp",
+		}
+	}
+
 	normalize(NetworkUDP, ProtoDNS, req, resp, r.maxRespSize)
 
 	bufPtr := r.respPool.Get()
